@@ -67,6 +67,8 @@ pub struct Gen<'a> {
     defining: Vec<String>,
     /// loop counters: readable, but never assigned by generated code (termination)
     counters: Vec<String>,
+    /// statements that must precede the statement being generated, in the same statement list
+    pending: Vec<S>,
 }
 
 fn scalar_kind(t: &Ty) -> Option<char> {
@@ -91,7 +93,7 @@ pub fn iter_elem(t: &Ty) -> Option<Ty> {
 
 impl<'a> Gen<'a> {
     pub fn new(rng: &'a mut Rng, p: Profile) -> Self {
-        Gen { rng, p, scopes: vec![Vec::new()], next_tick: 1, in_loop: 0, fn_ret: Vec::new(), shapes: BTreeSet::new(), budget: 400, defining: Vec::new(), counters: Vec::new() }
+        Gen { rng, p, scopes: vec![Vec::new()], next_tick: 1, in_loop: 0, fn_ret: Vec::new(), shapes: BTreeSet::new(), budget: 400, defining: Vec::new(), counters: Vec::new(), pending: Vec::new() }
     }
 
     fn tag(&mut self, s: &str) {
@@ -968,7 +970,7 @@ impl<'a> Gen<'a> {
         let mut body = Vec::new();
         for _ in 0..self.rng.below(3) {
             if depth > 0 {
-                body.push(self.stm(depth - 1));
+                self.stm_into(&mut body, depth - 1);
             }
         }
         let (e, t) = self.expr(goal, depth);
@@ -1011,7 +1013,7 @@ impl<'a> Gen<'a> {
                 self.tag(if exit == S::Break { "ctrl:break" } else { "ctrl:continue" });
                 body.push(S::If(c, Box::new(S::Block(vec![exit])), None));
             } else {
-                body.push(self.stm(depth));
+                self.stm_into(&mut body, depth);
             }
         }
         self.in_loop -= 1;
@@ -1077,14 +1079,14 @@ impl<'a> Gen<'a> {
                 s
             }
             6 if self.p.type_tests && self.pct(30) => {
-                // while-set over a union-typed cell that the body eventually turns into a string
+                // while-set over a union-typed cell that the body turns into a string: the loop is emitted bare (no
+                // wrapping block), its cell is declared beside it in the same statement list
                 let u = Ty::union([Ty::Int, Ty::Str]);
                 let k = self.counter_name();
                 let v = self.name();
                 let start = self.rng.range(0, 3);
-                self.push();
                 self.declare(&k, Ty::mutc(u.clone()));
-                let init = S::Let(k.clone(), Box::new(S::Expr(E::Mut(Some(u.clone()), Box::new(E::Int(start))))));
+                self.pending.push(S::Let(k.clone(), Box::new(S::Expr(E::Mut(Some(u.clone()), Box::new(E::Int(start)))))));
                 self.push();
                 self.declare(&v, Ty::Int);
                 let step = S::If(
@@ -1099,25 +1101,22 @@ impl<'a> Gen<'a> {
                 let mut body = vec![step];
                 body.extend(self.loop_body(d));
                 self.pop();
-                self.pop();
                 self.tag("stm:while-set");
-                S::Block(vec![init, S::WhileSet(v, Ty::Int, E::Un("*", Box::new(E::Var(k))), Box::new(S::Block(body)))])
+                S::WhileSet(v, Ty::Int, E::Un("*", Box::new(E::Var(k))), Box::new(S::Block(body)))
             }
             6 => {
-                // bounded while loop
+                // bounded while loop, emitted bare; its counter is declared beside it
                 let k = self.counter_name();
                 let limit = self.rng.range(0, 4);
-                self.push();
                 self.declare(&k, Ty::mutc(Ty::Int));
-                let init = S::Let(k.clone(), Box::new(S::Expr(E::Mut(None, Box::new(E::Int(0))))));
+                self.pending.push(S::Let(k.clone(), Box::new(S::Expr(E::Mut(None, Box::new(E::Int(0)))))));
                 self.push();
                 let mut body = vec![S::Expr(E::Bin("+=", Box::new(E::Var(k.clone())), Box::new(E::Int(1))))];
                 body.extend(self.loop_body(d));
                 self.pop();
-                self.pop();
                 self.tag("stm:while");
                 let cond = E::Bin("<", Box::new(E::Un("*", Box::new(E::Var(k)))), Box::new(E::Int(limit)));
-                S::Block(vec![init, S::While(cond, Box::new(S::Block(body)))])
+                S::While(cond, Box::new(S::Block(body)))
             }
             7 => {
                 let et = self.rng.pick(&[Ty::Int, Ty::Int, Ty::Str, Ty::Bool]).clone();
@@ -1133,9 +1132,8 @@ impl<'a> Gen<'a> {
             8 => {
                 let k = self.counter_name();
                 let limit = self.rng.range(1, 4);
-                self.push();
                 self.declare(&k, Ty::mutc(Ty::Int));
-                let init = S::Let(k.clone(), Box::new(S::Expr(E::Mut(None, Box::new(E::Int(0))))));
+                self.pending.push(S::Let(k.clone(), Box::new(S::Expr(E::Mut(None, Box::new(E::Int(0)))))));
                 self.push();
                 let mut body = vec![
                     S::Expr(E::Bin("+=", Box::new(E::Var(k.clone())), Box::new(E::Int(1)))),
@@ -1143,9 +1141,8 @@ impl<'a> Gen<'a> {
                 ];
                 body.extend(self.loop_body(d));
                 self.pop();
-                self.pop();
                 self.tag("stm:loop");
-                S::Block(vec![init, S::Loop(Box::new(S::Block(body)))])
+                S::Loop(Box::new(S::Block(body)))
             }
             9 => {
                 let (n1, n2) = (self.name(), self.name());
@@ -1255,7 +1252,7 @@ impl<'a> Gen<'a> {
             self.tag("fn:recursive");
         }
         for _ in 0..self.rng.below(3) {
-            body.push(self.stm(depth.saturating_sub(1)));
+            self.stm_into(&mut body, depth.saturating_sub(1));
         }
         // early return
         if ret != Ty::Void && self.pct(30) {
@@ -1296,8 +1293,21 @@ impl<'a> Gen<'a> {
         S::FnDecl(fname, params, ret, body)
     }
 
+    /// generate one statement into `out`, preceded by whatever it needs declared beside it (loop counters)
+    pub fn stm_into(&mut self, out: &mut Vec<S>, depth: u32) {
+        let saved = std::mem::take(&mut self.pending);
+        let s = self.stm(depth);
+        out.append(&mut self.pending);
+        out.push(s);
+        self.pending = saved;
+    }
+
     pub fn block(&mut self, n: usize, depth: u32) -> Vec<S> {
-        (0..n).map(|_| self.stm(depth)).collect()
+        let mut out = Vec::new();
+        for _ in 0..n {
+            self.stm_into(&mut out, depth);
+        }
+        out
     }
 
     /// a whole program: statements, then a final expression collecting visible first-order variables
@@ -1305,7 +1315,8 @@ impl<'a> Gen<'a> {
         let n = self.p.min_stmts + self.rng.below(self.p.max_stmts - self.p.min_stmts + 1);
         let mut body = Vec::new();
         for _ in 0..n {
-            body.push(self.stm(self.p.max_depth));
+            let d = self.p.max_depth;
+            self.stm_into(&mut body, d);
         }
         body.push(S::Expr(self.final_expr()));
         body
